@@ -577,3 +577,993 @@ Section Semantics.
       + simpl. apply Qeq_eqR. exact Hq.
       + intros _. eexists. split; [reflexivity | exact Hq].
   Qed.
+
+  Notation dtable := (dtable ang).
+  Notation rtable := (rtable ang).
+
+  (* ---------------------------------------------------------------- *)
+  (** ** Rows of a resampled table at a knot *)
+
+  Lemma interp_row_get : forall st t c, In c (cols st) ->
+    get (VQ 0) (cols st) (interp_row st t) c =
+    interp_cell (cols st) (has_all rph_cols (cols st)) t
+                (fst (bracket (rows st) t)) (snd (bracket (rows st) t)) c.
+  Proof.
+    intros st t c Hc. unfold Model.StateDiff.interp_row. apply get_map. exact Hc.
+  Qed.
+
+  Lemma interp_row_length : forall st t, length (interp_row st t) = length (cols st).
+  Proof. intros st t. unfold Model.StateDiff.interp_row. apply map_length. Qed.
+
+  (** cells that are not Slerp-interpolated are plain numbers *)
+  Lemma interp_row_numeric : forall st t c, In c (cols st) ->
+    has_all rph_cols (cols st) && is_rph c = false ->
+    get (VQ 0) (cols st) (interp_row st t) c =
+    VQ (lerp t (fst (fst (bracket (rows st) t))) (fst (snd (bracket (rows st) t)))
+             (get 0 (cols st) (snd (fst (bracket (rows st) t))) c)
+             (get 0 (cols st) (snd (snd (bracket (rows st) t))) c)).
+  Proof.
+    intros st t c Hc Hf. rewrite interp_row_get by exact Hc.
+    unfold Model.StateDiff.interp_cell. rewrite Hf. reflexivity.
+  Qed.
+
+  Lemma interp_row_attitude : forall st t c, In c (cols st) ->
+    has_all rph_cols (cols st) && is_rph c = true ->
+    get (VQ 0) (cols st) (interp_row st t) c =
+    VA c (slerp (rph_of (cols st) (snd (fst (bracket (rows st) t))))
+                (rph_of (cols st) (snd (snd (bracket (rows st) t))))
+                (w_hi t (fst (fst (bracket (rows st) t))) (fst (snd (bracket (rows st) t))))).
+  Proof.
+    intros st t c Hc Hf. rewrite interp_row_get by exact Hc.
+    unfold Model.StateDiff.interp_cell. rewrite Hf. reflexivity.
+  Qed.
+
+  Lemma interp_row_knot : forall st t t0 r0 c,
+    well_formed st -> canon_table st -> In (t0, r0) (rows st) -> t == t0 -> In c (cols st) ->
+    valR (get (VQ 0) (cols st) (interp_row st t) c) = Q2R (get 0 (cols st) r0 c) /\
+    (has_all rph_cols (cols st) && is_rph c = false ->
+       exists q, get (VQ 0) (cols st) (interp_row st t) c = VQ q /\ q == get 0 (cols st) r0 c).
+  Proof.
+    intros st t t0 r0 c [Hlen Hinc] Hcan Hin Ht Hc.
+    rewrite interp_row_get by exact Hc.
+    destruct (bracket_knot (rows st) t t0 r0 Hlen Hinc Hin Ht) as [lo [hi [E [Hlt Hcase]]]].
+    rewrite E. cbn [fst snd].
+    apply (interp_cell_knot _ _ _ _ _ t0 r0); try assumption.
+    intro Hr. apply (Hcan Hr (t0, r0)). exact Hin.
+  Qed.
+
+  (* ---------------------------------------------------------------- *)
+  (** ** Column selection *)
+
+  Lemma rows_select : forall C t,
+    rows (select C t) = map (fun r => (fst r, map (get 0 (cols t) (snd r)) C)) (rows t).
+  Proof. reflexivity. Qed.
+
+  Lemma well_formed_select : forall C t, well_formed t -> well_formed (select C t).
+  Proof.
+    intros C t [H1 H2]. split.
+    - rewrite rows_select, map_length. exact H1.
+    - rewrite times_select. exact H2.
+  Qed.
+
+  Lemma has_all_intro : forall w cs, (forall c, In c w -> In c cs) -> has_all w cs = true.
+  Proof.
+    intros w cs H. unfold has_all. apply forallb_forall. intros c Hc. apply mem_In. auto.
+  Qed.
+
+  Lemma rph_of_select : forall C cs r,
+    has_all rph_cols C = true -> rph_of C (map (get 0 cs r) C) = rph_of cs r.
+  Proof.
+    intros C cs r H. unfold rph_of.
+    rewrite !get_map; [reflexivity | | |];
+      apply (has_all_mem rph_cols C); try exact H; simpl; auto.
+  Qed.
+
+  Lemma canon_select : forall C s,
+    (forall c, In c C -> In c (cols s)) -> canon_table s -> canon_table (select C s).
+  Proof.
+    intros C s Hsub Hcan Hr r Hin. cbn [cols select] in Hr |- *.
+    rewrite rows_select in Hin. apply in_map_iff in Hin. destruct Hin as [r0 [E Hin0]].
+    subst r. cbn [snd]. rewrite rph_of_select by exact Hr.
+    apply Hcan; [| exact Hin0].
+    apply has_all_intro. intros c Hc. apply Hsub. apply (has_all_mem rph_cols C); assumption.
+  Qed.
+
+  Lemma col_inter_sub_l : forall c1 c2 c, In c (col_inter c1 c2) -> In c c1.
+  Proof. intros c1 c2 c H. unfold col_inter in H. apply filter_In in H. tauto. Qed.
+
+  Lemma col_inter_sub_r : forall c1 c2 c, In c (col_inter c1 c2) -> In c c2.
+  Proof.
+    intros c1 c2 c H. unfold col_inter in H. apply filter_In in H. apply mem_In. tauto.
+  Qed.
+
+  (* ---------------------------------------------------------------- *)
+  (** ** The rows of a difference, without [combine] *)
+
+  Lemma combine_map_map : forall (A B C : Type) (g : A -> B) (h : Q -> C) (k : A -> Q) (l : list A),
+    combine (map g l) (map h (map k l)) = map (fun x => (g x, h (k x))) l.
+  Proof. induction l as [| x l IH]; simpl; [reflexivity | rewrite IH; reflexivity]. Qed.
+
+  Definition core_cols (f s : table) : list nat := col_inter (cols f) (cols s).
+
+  (** the row of [diff_core sign f s] that stems from row [r] of [f] *)
+  Definition core_row (sign : Q) (f s : table) (r : Q * list Q) : Q * list dval :=
+    (fst r, diff_row sign (core_cols f s)
+                     (map (get 0 (cols f) (snd r)) (core_cols f s))
+                     (interp_row (select (core_cols f s) s) (fst r))).
+
+  Lemma diff_core_cols : forall sign f s, d_cols (diff_core sign f s) = core_cols f s.
+  Proof. reflexivity. Qed.
+
+  Lemma diff_core_rows : forall sign f s, incr (times f) ->
+    d_rows (diff_core sign f s)
+    = map (core_row sign f s) (filter (fun r => in_span s (fst r)) (rows f)).
+  Proof.
+    intros sign f s Hinc.
+    unfold Model.StateDiff.diff_core, Model.StateDiff.resample_state. cbn [d_rows r_rows].
+    fold (core_cols f s). set (C := core_cols f s).
+    assert (E1 : filter (in_span s) (times f)
+                 = map fst (filter (fun r => in_span s (fst r)) (rows f))).
+    { unfold times. apply filter_map_comm. }
+    rewrite E1. set (L := filter (fun r => in_span s (fst r)) (rows f)).
+    assert (Hs : sorted (map fst L)).
+    { apply incr_sorted. unfold L. rewrite <- E1. apply incr_filter. exact Hinc. }
+    rewrite (isort_id _ Hs).
+    assert (E2 : filter (in_span (select C s)) (map fst L) = map fst L).
+    { rewrite (filter_ext _ (in_span s)) by (intro x; apply in_span_select).
+      unfold L. rewrite <- E1. apply filter_idem. }
+    rewrite E2. rewrite rows_select, filter_map_comm. cbn [fst]. fold L.
+    rewrite combine_map_map, map_map. apply map_ext. intro r. reflexivity.
+  Qed.
+
+  Lemma diff_core_index : forall sign f s, incr (times f) ->
+    map fst (d_rows (diff_core sign f s)) = filter (in_span s) (times f).
+  Proof.
+    intros sign f s Hinc. rewrite diff_core_rows by exact Hinc. rewrite map_map.
+    unfold times. rewrite filter_map_comm. apply map_ext. intro r. reflexivity.
+  Qed.
+
+  (* ---------------------------------------------------------------- *)
+  (** ** Meaning of a difference cell *)
+
+  (** the second operand's cells that are not Slerp-interpolated are numbers *)
+  Definition numeric (rph : bool) (C : list nat) (sr : list val) : Prop :=
+    forall c, In c C -> rph && is_rph c = false -> exists q, get (VQ 0) C sr c = VQ q.
+
+  Lemma is_lla_not_rph : forall c, is_lla c = true -> is_rph c = false.
+  Proof.
+    intros c H. unfold is_lla, is_rph, mem, lla_cols, rph_cols, c_lat, c_lon, c_alt,
+      c_roll, c_pitch, c_heading in *.
+    destruct c as [| [| [| c]]]; simpl in H; try discriminate. reflexivity.
+  Qed.
+
+  Lemma diff_cell_is_angle : forall sign lla rph C fr sr c,
+    is_angle (diff_cell sign lla rph C fr sr c) = rph && is_rph c.
+  Proof.
+    intros. unfold Model.StateDiff.diff_cell.
+    destruct (rph && is_rph c); [reflexivity |].
+    destruct (lla && is_lla c); reflexivity.
+  Qed.
+
+  Lemma diff_cell_ideal : forall sign C fr sr c,
+    In c C -> numeric (has_all rph_cols C) C sr ->
+    dvalR (diff_cell sign (has_all lla_cols C) (has_all rph_cols C) C fr sr c)
+    = ideal (Q2R sign) (has_all lla_cols C) (has_all rph_cols C) c
+            (fun c => Q2R (get 0 C fr c)) (fun c => valR (get (VQ 0) C sr c)).
+  Proof.
+    intros sign C fr sr c Hc Hnum.
+    unfold Model.StateDiff.diff_cell, ideal.
+    destruct (has_all rph_cols C && is_rph c) eqn:Er.
+    - reflexivity.
+    - destruct (Hnum c Hc Er) as [q Eq].
+      destruct (has_all lla_cols C && is_lla c) eqn:El.
+      + apply andb_true_iff in El. destruct El as [Hl Hcl].
+        assert (Hlat : In c_lat C) by (apply (has_all_mem lla_cols C); [exact Hl | simpl; auto]).
+        assert (Halt : In c_alt C) by (apply (has_all_mem lla_cols C); [exact Hl | simpl; auto]).
+        destruct (Hnum c_lat Hlat) as [qlat Elat].
+        { rewrite (is_lla_not_rph c_lat) by reflexivity. apply andb_false_r. }
+        destruct (Hnum c_alt Halt) as [qalt Ealt].
+        { rewrite (is_lla_not_rph c_alt) by reflexivity. apply andb_false_r. }
+        rewrite Eq, Elat, Ealt. cbn [dvalR valq valR].
+        rewrite !Q2R_mult, !Q2R_minus, !Q2R_plus, Q2R_half. f_equal; lra.
+      + rewrite Eq. cbn [dvalR valq valR]. rewrite Q2R_mult, Q2R_minus. reflexivity.
+  Qed.
+
+  (** [ideal] looks at the two rows only in column c and, for a position column,
+      in lat and alt *)
+  Lemma ideal_ext : forall sg C c fv sv fv' sv',
+    In c C -> (forall c', In c' C -> fv c' = fv' c') -> (forall c', In c' C -> sv c' = sv' c') ->
+    ideal sg (has_all lla_cols C) (has_all rph_cols C) c fv sv
+    = ideal sg (has_all lla_cols C) (has_all rph_cols C) c fv' sv'.
+  Proof.
+    intros sg C c fv sv fv' sv' Hc Hf Hs. unfold ideal.
+    destruct (has_all rph_cols C && is_rph c).
+    - rewrite (Hf c Hc), (Hs c Hc). reflexivity.
+    - destruct (has_all lla_cols C && is_lla c) eqn:El.
+      + apply andb_true_iff in El. destruct El as [Hl _].
+        assert (Hlat : In c_lat C) by (apply (has_all_mem lla_cols C); [exact Hl | simpl; auto]).
+        assert (Halt : In c_alt C) by (apply (has_all_mem lla_cols C); [exact Hl | simpl; auto]).
+        rewrite (Hf c Hc), (Hs c Hc), (Hf _ Hlat), (Hs _ Hlat), (Hf _ Halt), (Hs _ Halt).
+        reflexivity.
+      + rewrite (Hf c Hc), (Hs c Hc). reflexivity.
+  Qed.
+
+  Lemma metres_zero : forall k a b, metres k 0 a b = 0%R.
+  Proof.
+    intros k a b. unfold metres.
+    destruct (Nat.eqb k c_lat); [lra |]. destruct (Nat.eqb k c_lon); lra.
+  Qed.
+
+  Lemma metres_opp : forall k d a b, metres k (- d) a b = (- metres k d a b)%R.
+  Proof.
+    intros k d a b. unfold metres.
+    destruct (Nat.eqb k c_lat); [lra |]. destruct (Nat.eqb k c_lon); lra.
+  Qed.
+
+  Lemma to180_arr_zero : to_180_range_arr_r 0 = 0%R.
+  Proof. apply to180_arr_of_in_range. lra. Qed.
+
+  (** equal operands give exactly zero *)
+  Lemma ideal_zero : forall sg lla rph c fv sv, fv c = sv c -> ideal sg lla rph c fv sv = 0%R.
+  Proof.
+    intros sg lla rph c fv sv E. unfold ideal. rewrite E.
+    replace (sg * (sv c - sv c))%R with 0%R by lra.
+    destruct (rph && is_rph c); [apply to180_arr_zero |].
+    destruct (lla && is_lla c); [apply metres_zero | reflexivity].
+  Qed.
+
+  (** antisymmetry of a cell in its two operands: exact, except for an angle cell
+      equal to 180, which is 180 in both orders *)
+  Definition antisymR (angle : bool) (x y : R) : Prop :=
+    if angle then (x <> 180%R -> y = (- x)%R) /\ (x = 180%R -> y = 180%R)
+    else y = (- x)%R.
+
+  Lemma ideal_swap_operands : forall sg lla rph c fv sv,
+    antisymR (rph && is_rph c) (ideal sg lla rph c fv sv) (ideal sg lla rph c sv fv).
+  Proof.
+    intros sg lla rph c fv sv. unfold antisymR, ideal.
+    replace (sg * (sv c - fv c))%R with (- (sg * (fv c - sv c)))%R by lra.
+    destruct (rph && is_rph c).
+    - apply to180_arr_neg.
+    - destruct (lla && is_lla c).
+      + replace ((sv c_lat + fv c_lat) / 2)%R with ((fv c_lat + sv c_lat) / 2)%R by lra.
+        replace ((sv c_alt + fv c_alt) / 2)%R with ((fv c_alt + sv c_alt) / 2)%R by lra.
+        apply metres_opp.
+      + reflexivity.
+  Qed.
+
+  Lemma ideal_swap_sign : forall sg lla rph c fv sv,
+    antisymR (rph && is_rph c) (ideal sg lla rph c fv sv) (ideal (- sg) lla rph c fv sv).
+  Proof.
+    intros sg lla rph c fv sv. unfold antisymR, ideal.
+    replace (- sg * (fv c - sv c))%R with (- (sg * (fv c - sv c)))%R by lra.
+    destruct (rph && is_rph c).
+    - apply to180_arr_neg.
+    - destruct (lla && is_lla c); [apply metres_opp | reflexivity].
+  Qed.
+
+  (** every reported angle difference lies in (-180, 180] *)
+  Lemma angle_cell_range : forall d : dval,
+    is_angle d = true -> (-180 < dvalR d <= 180)%R.
+  Proof.
+    intros d H. destruct d as [q | sg f s | k d' a b]; try discriminate.
+    cbn [dvalR]. apply to180_arr_range_congruent.
+  Qed.
+
+  Lemma ideal_angle_range : forall sg lla rph c fv sv,
+    rph && is_rph c = true -> (-180 < ideal sg lla rph c fv sv <= 180)%R.
+  Proof.
+    intros sg lla rph c fv sv H. unfold ideal. rewrite H. apply to180_arr_range_congruent.
+  Qed.
+
+  (* ---------------------------------------------------------------- *)
+  (** ** Cells of [diff_core] *)
+
+  Lemma diff_row_get : forall sign C fr sr c, In c C ->
+    get (DQ 0) C (diff_row sign C fr sr) c
+    = diff_cell sign (has_all lla_cols C) (has_all rph_cols C) C fr sr c.
+  Proof. intros. unfold Model.StateDiff.diff_row. apply get_map. assumption. Qed.
+
+  Lemma interp_row_select_numeric : forall C s t,
+    numeric (has_all rph_cols C) C (interp_row (select C s) t).
+  Proof.
+    intros C s t c Hc Hf. eexists.
+    apply (interp_row_numeric (select C s) t c Hc Hf).
+  Qed.
+
+  (** General position: the cell of column c in the row that stems from row r of
+      the first operand is [ideal] of r's values and the second operand's
+      interpolated values at r's time. *)
+  Lemma core_row_cell : forall sign f s r c,
+    In c (core_cols f s) ->
+    is_angle (get (DQ 0) (core_cols f s) (snd (core_row sign f s r)) c)
+      = has_all rph_cols (core_cols f s) && is_rph c /\
+    dvalR (get (DQ 0) (core_cols f s) (snd (core_row sign f s r)) c)
+      = ideal (Q2R sign) (has_all lla_cols (core_cols f s)) (has_all rph_cols (core_cols f s)) c
+              (fun c => Q2R (get 0 (cols f) (snd r) c))
+              (fun c => valR (get (VQ 0) (core_cols f s)
+                                  (interp_row (select (core_cols f s) s) (fst r)) c)).
+  Proof.
+    intros sign f s r c Hc. unfold core_row. cbn [snd]. set (C := core_cols f s) in *.
+    rewrite diff_row_get by exact Hc. split; [apply diff_cell_is_angle |].
+    rewrite diff_cell_ideal; [| exact Hc | apply interp_row_select_numeric].
+    apply ideal_ext; [exact Hc | | reflexivity].
+    intros c' Hc'. rewrite get_map by exact Hc'. reflexivity.
+  Qed.
+
+  (** At a stamp that both operands have, the second operand's values are its own
+      row (interpolation at a knot returns the knot). *)
+  Lemma core_row_cell_knot : forall sign f s t rf rs c,
+    well_formed s -> canon_table s -> In (t, rs) (rows s) -> In c (core_cols f s) ->
+    is_angle (get (DQ 0) (core_cols f s) (snd (core_row sign f s (t, rf))) c)
+      = has_all rph_cols (core_cols f s) && is_rph c /\
+    dvalR (get (DQ 0) (core_cols f s) (snd (core_row sign f s (t, rf))) c)
+      = ideal (Q2R sign) (has_all lla_cols (core_cols f s)) (has_all rph_cols (core_cols f s)) c
+              (fun c => Q2R (get 0 (cols f) rf c))
+              (fun c => Q2R (get 0 (cols s) rs c)).
+  Proof.
+    intros sign f s t rf rs c Hwf Hcan Hin Hc.
+    destruct (core_row_cell sign f s (t, rf) c Hc) as [Ha Hv].
+    split; [exact Ha |]. rewrite Hv. cbn [fst snd]. set (C := core_cols f s) in *.
+    apply ideal_ext; [exact Hc | reflexivity |].
+    intros c' Hc'.
+    assert (Hin' : In (t, map (get 0 (cols s) rs) C) (rows (select C s))).
+    { rewrite rows_select. apply in_map_iff. exists (t, rs). split; [reflexivity | exact Hin]. }
+    assert (Hcan' : canon_table (select C s)).
+    { apply canon_select; [| exact Hcan]. intros x Hx. exact (col_inter_sub_r _ _ _ Hx). }
+    destruct (interp_row_knot (select C s) t t _ c' (well_formed_select C s Hwf) Hcan' Hin'
+                              (Qeq_refl t) Hc') as [H _].
+    cbn [cols select] in H. rewrite H. rewrite get_map by exact Hc'. reflexivity.
+  Qed.
+
+  (* ---------------------------------------------------------------- *)
+  (** ** Which operand is interpolated *)
+
+  (** [(sign, first, second)] after the operand swap *)
+  Definition operands (a b : table) : Q * table * table :=
+    if Qltb (median_dt a) (median_dt b) then (-1, b, a) else (1, a, b).
+
+  Lemma state_diff_operands : forall a b,
+    state_diff a b = diff_core (fst (fst (operands a b))) (snd (fst (operands a b))) (snd (operands a b)).
+  Proof.
+    intros a b. unfold Model.StateDiff.state_diff, operands.
+    destruct (Qltb (median_dt a) (median_dt b)); reflexivity.
+  Qed.
+
+  Lemma state_diff_swap : forall a b, median_dt a < median_dt b ->
+    state_diff a b = diff_core (-1) b a.
+  Proof.
+    intros a b H. unfold Model.StateDiff.state_diff.
+    apply Qltb_iff in H. rewrite H. reflexivity.
+  Qed.
+
+  Lemma state_diff_noswap : forall a b, median_dt b <= median_dt a ->
+    state_diff a b = diff_core 1 a b.
+  Proof.
+    intros a b H. unfold Model.StateDiff.state_diff.
+    apply Qltb_false_iff in H. rewrite H. reflexivity.
+  Qed.
+
+  (* ---------------------------------------------------------------- *)
+  (** ** Antisymmetry *)
+
+  Definition cell_antisym (x y : dval) : Prop :=
+    is_angle x = is_angle y /\ antisymR (is_angle x) (dvalR x) (dvalR y).
+
+  (** same columns in the same order, same stamps, every cell negated (an angle
+      cell equal to 180 stays 180) *)
+  Definition table_antisym (d1 d2 : dtable) : Prop :=
+    d_cols d1 = d_cols d2 /\
+    Forall2 (fun r1 r2 => fst r1 = fst r2 /\ Forall2 cell_antisym (snd r1) (snd r2))
+            (d_rows d1) (d_rows d2).
+
+  Lemma Forall2_map_same : forall (A B C : Type) (P : B -> C -> Prop) (g : A -> B) (h : A -> C) l,
+    (forall x, In x l -> P (g x) (h x)) -> Forall2 P (map g l) (map h l).
+  Proof.
+    intros A B C P g h. induction l as [| x l IH]; intro H; simpl; constructor.
+    - apply H. left. reflexivity.
+    - apply IH. intros y Hy. apply H. right. exact Hy.
+  Qed.
+
+  Lemma diff_cell_neg_sign : forall sg sg' lla rph C fr sr c,
+    Q2R sg' = (- Q2R sg)%R ->
+    cell_antisym (diff_cell sg lla rph C fr sr c) (diff_cell sg' lla rph C fr sr c).
+  Proof.
+    intros sg sg' lla rph C fr sr c Hs. unfold cell_antisym.
+    rewrite !diff_cell_is_angle. split; [reflexivity |].
+    unfold Model.StateDiff.diff_cell, antisymR.
+    destruct (rph && is_rph c).
+    - cbn [dvalR]. rewrite Hs, Ropp_mult_distr_l_reverse.
+      apply to180_arr_neg.
+    - destruct (lla && is_lla c); cbn [dvalR]; rewrite !Q2R_mult, Hs.
+      + rewrite <- metres_opp. f_equal. lra.
+      + lra.
+  Qed.
+
+  Lemma diff_core_neg_sign : forall sg sg' f s,
+    Q2R sg' = (- Q2R sg)%R -> table_antisym (diff_core sg f s) (diff_core sg' f s).
+  Proof.
+    intros sg sg' f s Hs. split; [reflexivity |].
+    unfold Model.StateDiff.diff_core. cbn [d_rows].
+    apply Forall2_map_same. intros p _. cbn [fst snd]. split; [reflexivity |].
+    unfold Model.StateDiff.diff_row. apply Forall2_map_same. intros c _.
+    apply diff_cell_neg_sign. exact Hs.
+  Qed.
+
+  (** different median sampling intervals: one of the two calls swaps its
+      operands, both interpolate the same table on the same stamps *)
+  Theorem diff_antisym_swap : forall a b,
+    ~ median_dt a == median_dt b -> table_antisym (state_diff a b) (state_diff b a).
+  Proof.
+    intros a b Hne. unfold Model.StateDiff.state_diff.
+    destruct (Qltb (median_dt a) (median_dt b)) eqn:E1;
+      destruct (Qltb (median_dt b) (median_dt a)) eqn:E2.
+    - apply Qltb_iff in E1. apply Qltb_iff in E2. exfalso.
+      exact (Qlt_irrefl _ (Qlt_trans _ _ _ E1 E2)).
+    - apply diff_core_neg_sign. rewrite Q2R_one, Q2R_mone. lra.
+    - apply diff_core_neg_sign. rewrite Q2R_one, Q2R_mone. lra.
+    - apply Qltb_false_iff in E1. apply Qltb_false_iff in E2. exfalso.
+      apply Hne. apply Qle_antisym; assumption.
+  Qed.
+
+  Lemma flags_comm : forall w c1 c2, has_all w (col_inter c1 c2) = has_all w (col_inter c2 c1).
+  Proof. intros. rewrite !has_all_col_inter. apply andb_comm. Qed.
+
+  Lemma in_core_cols : forall f s c, In c (cols f) -> In c (cols s) -> In c (core_cols f s).
+  Proof.
+    intros f s c H1 H2. unfold core_cols, col_inter. apply filter_In. split; [exact H1 |].
+    apply mem_In. exact H2.
+  Qed.
+
+  Lemma core_row_in : forall sign f s t rf x,
+    incr (times f) -> incr (times s) -> In (t, rf) (rows f) -> In x (rows s) -> fst x = t ->
+    In (core_row sign f s (t, rf)) (d_rows (diff_core sign f s)).
+  Proof.
+    intros sign f s t rf x Hf Hs Hin Hx Et. rewrite diff_core_rows by exact Hf.
+    apply in_map. apply filter_In. split; [exact Hin |]. cbn [fst].
+    apply (knot_in_span s x t Hs Hx). rewrite Et. apply Qeq_refl.
+  Qed.
+
+  (** equal median sampling intervals: neither call swaps.  On every stamp that
+      both tables have the two results are antisymmetric column by column (the
+      column ORDER of each result is that of its own first argument).  Stamps
+      that only one table has appear in only one of the two results: recorded
+      finding equal-median-index-mismatch. *)
+  Theorem diff_antisym_common_stamp : forall a b t ra rb,
+    well_formed a -> well_formed b -> canon_table a -> canon_table b ->
+    median_dt a == median_dt b ->
+    In (t, ra) (rows a) -> In (t, rb) (rows b) ->
+    exists cells1 cells2,
+      In (t, cells1) (d_rows (state_diff a b)) /\ In (t, cells2) (d_rows (state_diff b a)) /\
+      forall c, In c (cols a) -> In c (cols b) ->
+        cell_antisym (get (DQ 0) (d_cols (state_diff a b)) cells1 c)
+                     (get (DQ 0) (d_cols (state_diff b a)) cells2 c).
+  Proof.
+    intros a b t ra rb Ha Hb Hca Hcb Hm Hina Hinb.
+    rewrite (state_diff_noswap a b) by (rewrite Hm; apply Qle_refl).
+    rewrite (state_diff_noswap b a) by (rewrite Hm; apply Qle_refl).
+    exists (snd (core_row 1 a b (t, ra))), (snd (core_row 1 b a (t, rb))).
+    split; [| split].
+    - apply (core_row_in 1 a b t ra (t, rb)); try assumption; [apply Ha | apply Hb | reflexivity].
+    - apply (core_row_in 1 b a t rb (t, ra)); try assumption; [apply Hb | apply Ha | reflexivity].
+    - intros c Hc1 Hc2. rewrite !diff_core_cols.
+      destruct (core_row_cell_knot 1 a b t ra rb c Hb Hcb Hinb (in_core_cols _ _ _ Hc1 Hc2))
+        as [A1 V1].
+      destruct (core_row_cell_knot 1 b a t rb ra c Ha Hca Hina (in_core_cols _ _ _ Hc2 Hc1))
+        as [A2 V2].
+      unfold cell_antisym. rewrite A1, A2, V1, V2. unfold core_cols.
+      rewrite (flags_comm rph_cols (cols b) (cols a)), (flags_comm lla_cols (cols b) (cols a)).
+      split; [reflexivity |]. apply ideal_swap_operands.
+  Qed.
+
+  Lemma filter_true : forall (A : Type) (p : A -> bool) l,
+    (forall x, In x l -> p x = true) -> filter p l = l.
+  Proof.
+    intros A p. induction l as [| x l IH]; intro H; simpl; [reflexivity |].
+    rewrite (H x) by (left; reflexivity). f_equal. apply IH. intros y Hy. apply H. right. exact Hy.
+  Qed.
+
+  Lemma in_times : forall t x, In x (times t) -> exists r, In (x, r) (rows t).
+  Proof.
+    intros t x H. unfold times in H. apply in_map_iff in H. destruct H as [[x' r] [E H]].
+    simpl in E. subst x'. exists r. exact H.
+  Qed.
+
+  (** equal index: every stamp is common, both results carry exactly that index *)
+  Theorem diff_antisym_equal_index : forall a b,
+    well_formed a -> well_formed b -> canon_table a -> canon_table b ->
+    times a = times b ->
+    map fst (d_rows (state_diff a b)) = times a /\
+    map fst (d_rows (state_diff b a)) = times a /\
+    forall t ra, In (t, ra) (rows a) ->
+      exists rb cells1 cells2,
+        In (t, rb) (rows b) /\
+        In (t, cells1) (d_rows (state_diff a b)) /\ In (t, cells2) (d_rows (state_diff b a)) /\
+        forall c, In c (cols a) -> In c (cols b) ->
+          cell_antisym (get (DQ 0) (d_cols (state_diff a b)) cells1 c)
+                       (get (DQ 0) (d_cols (state_diff b a)) cells2 c).
+  Proof.
+    intros a b Ha Hb Hca Hcb Et.
+    assert (Hm : median_dt a == median_dt b) by (unfold median_dt; rewrite Et; apply Qeq_refl).
+    assert (Hall : forall u v : table, incr (times v) -> times u = times v ->
+                     filter (in_span v) (times u) = times u).
+    { intros u v Hv E. apply filter_true. intros x Hx. rewrite E in Hx.
+      destruct (in_times v x Hx) as [r Hr]. apply (knot_in_span v (x, r) x Hv Hr). apply Qeq_refl. }
+    split; [| split].
+    - rewrite (state_diff_noswap a b) by (rewrite Hm; apply Qle_refl).
+      rewrite diff_core_index by apply Ha. apply Hall; [apply Hb | exact Et].
+    - rewrite (state_diff_noswap b a) by (rewrite Hm; apply Qle_refl).
+      rewrite diff_core_index by apply Hb. rewrite Et. apply Hall; [apply Ha | symmetry; exact Et].
+    - intros t ra Hin.
+      assert (Ht : In t (times b)).
+      { rewrite <- Et. unfold times. change t with (fst (t, ra)). apply in_map. exact Hin. }
+      destruct (in_times b t Ht) as [rb Hrb].
+      destruct (diff_antisym_common_stamp a b t ra rb Ha Hb Hca Hcb Hm Hin Hrb)
+        as [c1 [c2 [H1 [H2 H3]]]].
+      exists rb, c1, c2. auto.
+  Qed.
+
+  (* ---------------------------------------------------------------- *)
+  (** ** Exactly zero against itself or a sub-sampling *)
+
+  Definition zero_table (d : dtable) (C : list nat) (ts : list Q) : Prop :=
+    d_cols d = C /\ map fst (d_rows d) = ts /\
+    Forall (fun r => length (snd r) = length C /\ Forall (fun x => dvalR x = 0%R) (snd r))
+           (d_rows d).
+
+  (** [b] is a sub-sampling of [a]: same columns, every row of [b] is a row of [a] *)
+  Definition subsample (b a : table) : Prop := cols b = cols a /\ incl (rows b) (rows a).
+
+  Lemma diff_core_zero : forall sg f s,
+    incr (times f) -> well_formed s -> canon_table s -> subsample f s ->
+    zero_table (diff_core sg f s) (cols f) (times f).
+  Proof.
+    intros sg f s Hf Hs Hcan [Ec Hincl].
+    assert (EC : core_cols f s = cols f).
+    { unfold core_cols. rewrite Ec. apply col_inter_self. }
+    split; [| split].
+    - rewrite diff_core_cols. exact EC.
+    - rewrite diff_core_index by exact Hf. apply filter_true. intros x Hx.
+      destruct (in_times f x Hx) as [r Hr].
+      apply (knot_in_span s (x, r) x); [apply Hs | apply Hincl; exact Hr | apply Qeq_refl].
+    - rewrite diff_core_rows by exact Hf. apply Forall_forall. intros row Hrow.
+      apply in_map_iff in Hrow. destruct Hrow as [[t rf] [E Hr]]. subst row.
+      apply filter_In in Hr. destruct Hr as [Hr _].
+      split.
+      + unfold core_row. cbn [snd]. unfold Model.StateDiff.diff_row.
+        rewrite map_length, EC. reflexivity.
+      + apply Forall_forall. intros x Hx.
+        assert (Hx' := Hx). unfold core_row in Hx'. cbn [snd] in Hx'.
+        unfold Model.StateDiff.diff_row in Hx'. apply in_map_iff in Hx'.
+        destruct Hx' as [c [E Hc]].
+        destruct (core_row_cell_knot sg f s t rf rf c Hs Hcan (Hincl _ Hr) Hc) as [_ V].
+        unfold core_row in V. cbn [snd] in V.
+        rewrite diff_row_get in V by exact Hc. rewrite E in V. rewrite V.
+        apply ideal_zero. rewrite Ec. reflexivity.
+  Qed.
+
+  Theorem diff_self_zero : forall a,
+    well_formed a -> canon_table a -> zero_table (state_diff a a) (cols a) (times a).
+  Proof.
+    intros a Ha Hc. rewrite state_diff_noswap by apply Qle_refl.
+    apply diff_core_zero; [apply Ha | exact Ha | exact Hc |].
+    split; [reflexivity | apply incl_refl].
+  Qed.
+
+  (** [a] the full table, [b] a sub-sampling of it.  The code interpolates the
+      full table at the sub-sampling's stamps -- and then the result is zero --
+      exactly when it recognises [a] as the denser table: strictly smaller median
+      interval for [state_diff a b], smaller or equal for [state_diff b a].
+      Outside these hypotheses the statement is FALSE (recorded findings
+      subsample-equal-median-nonzero / subsample-smaller-median-nonzero, see
+      [subsample_equal_median_refuted], [subsample_smaller_median_refuted]). *)
+  Theorem diff_subsample_zero : forall a b,
+    well_formed a -> well_formed b -> canon_table a -> subsample b a ->
+    (median_dt a < median_dt b -> zero_table (state_diff a b) (cols b) (times b)) /\
+    (median_dt a <= median_dt b -> zero_table (state_diff b a) (cols b) (times b)).
+  Proof.
+    intros a b Ha Hb Hc Hsub. split; intro Hm.
+    - rewrite state_diff_swap by exact Hm. apply diff_core_zero; try assumption. apply Hb.
+    - rewrite state_diff_noswap by exact Hm. apply diff_core_zero; try assumption. apply Hb.
+  Qed.
+
+  (* ---------------------------------------------------------------- *)
+  (** ** Range of the reported angle differences; what every cell is *)
+
+  Theorem diff_angle_range : forall a b r x,
+    In r (d_rows (state_diff a b)) -> In x (snd r) -> is_angle x = true ->
+    (-180 < dvalR x <= 180)%R.
+  Proof. intros a b r x _ _ H. apply angle_cell_range. exact H. Qed.
+
+  (** Index, columns and cells of a difference of two tables ([sign], [f], [s] are
+      the operands after the swap): the columns are the common columns in the order
+      of [f]; the index is [f]'s stamps inside the span of [s]; the cell of column
+      c is [ideal]: to_180_range(sign (f - s)) for an attitude column (all of
+      roll/pitch/heading common), sign (f - s) scaled to metres with the radii at
+      the mean latitude and altitude for a position column (all of lat/lon/alt
+      common), sign (f - s) otherwise; s is interpolated at the stamp. *)
+  Theorem diff_cells : forall a b, incr (times a) -> incr (times b) ->
+    let sign := fst (fst (operands a b)) in
+    let f := snd (fst (operands a b)) in
+    let s := snd (operands a b) in
+    let C := col_inter (cols f) (cols s) in
+    d_cols (state_diff a b) = C /\
+    map fst (d_rows (state_diff a b)) = filter (in_span s) (times f) /\
+    forall row, In row (d_rows (state_diff a b)) ->
+      exists rf, In (fst row, rf) (rows f) /\ length (snd row) = length C /\
+        forall c, In c C ->
+          is_angle (get (DQ 0) C (snd row) c) = has_all rph_cols C && is_rph c /\
+          dvalR (get (DQ 0) C (snd row) c)
+          = ideal (Q2R sign) (has_all lla_cols C) (has_all rph_cols C) c
+                  (fun c => Q2R (get 0 (cols f) rf c))
+                  (fun c => valR (get (VQ 0) C (interp_row (select C s) (fst row)) c)).
+  Proof.
+    intros a b Ha Hb sign f s C.
+    assert (Hf : incr (times f)).
+    { unfold f, operands. destruct (Qltb (median_dt a) (median_dt b)); assumption. }
+    rewrite state_diff_operands. fold sign f s.
+    split; [reflexivity |]. split; [apply diff_core_index; exact Hf |].
+    intros row Hrow. rewrite diff_core_rows in Hrow by exact Hf.
+    apply in_map_iff in Hrow. destruct Hrow as [[t rf] [E Hr]]. subst row.
+    apply filter_In in Hr. destruct Hr as [Hr _].
+    exists rf. split; [exact Hr |]. split.
+    - unfold core_row. cbn [snd]. unfold Model.StateDiff.diff_row. apply map_length.
+    - intros c Hc. exact (core_row_cell sign f s (t, rf) c Hc).
+  Qed.
+
+  Lemma ideal_attitude : forall sg lla c fv sv, is_rph c = true ->
+    ideal sg lla true c fv sv = to_180_range_arr_r (sg * (fv c - sv c)).
+  Proof. intros. unfold ideal. rewrite H. reflexivity. Qed.
+
+  Lemma ideal_north : forall sg rph fv sv,
+    ideal sg true rph c_lat fv sv
+    = (sg * (fv c_lat - sv c_lat)
+       * (rn ((fv c_lat + sv c_lat) / 2) ((fv c_alt + sv c_alt) / 2) * (PI / 180)))%R.
+  Proof. intros. unfold ideal. rewrite andb_false_r. reflexivity. Qed.
+
+  Lemma ideal_east : forall sg rph fv sv,
+    ideal sg true rph c_lon fv sv
+    = (sg * (fv c_lon - sv c_lon)
+       * (rp ((fv c_lat + sv c_lat) / 2) ((fv c_alt + sv c_alt) / 2) * (PI / 180)))%R.
+  Proof. intros. unfold ideal. rewrite andb_false_r. reflexivity. Qed.
+
+  Lemma ideal_down : forall sg rph fv sv,
+    ideal sg true rph c_alt fv sv = (- (sg * (fv c_alt - sv c_alt)))%R.
+  Proof. intros. unfold ideal. rewrite andb_false_r. cbn. lra. Qed.
+
+  Lemma ideal_plain : forall sg lla rph c fv sv,
+    rph && is_rph c = false -> lla && is_lla c = false ->
+    ideal sg lla rph c fv sv = (sg * (fv c - sv c))%R.
+  Proof. intros sg lla rph c fv sv H1 H2. unfold ideal. rewrite H1, H2. reflexivity. Qed.
+
+  (** two Series with the same labels *)
+  Theorem series_diff_cells : forall cs r1 r2 c, In c cs ->
+    is_angle (get (DQ 0) cs (series_diff cs r1 r2) c) = has_all rph_cols cs && is_rph c /\
+    dvalR (get (DQ 0) cs (series_diff cs r1 r2) c)
+    = ideal 1 (has_all lla_cols cs) (has_all rph_cols cs) c
+            (fun c => Q2R (get 0 cs r1 c)) (fun c => Q2R (get 0 cs r2 c)).
+  Proof.
+    intros cs r1 r2 c Hc. unfold Model.StateDiff.series_diff.
+    assert (G : forall c', get (@VQ ang 0) cs (map (@VQ ang) r2) c' = @VQ ang (get 0 cs r2 c')).
+    { intro c'. unfold get. apply (map_nth (@VQ ang)). }
+    rewrite diff_row_get by exact Hc. split; [apply diff_cell_is_angle |].
+    rewrite diff_cell_ideal; [| exact Hc |].
+    - rewrite Q2R_one. apply ideal_ext; [exact Hc | reflexivity |].
+      intros c' _. rewrite G. reflexivity.
+    - intros c' _ _. eexists. apply G.
+  Qed.
+
+  Theorem series_diff_antisym : forall cs r1 r2 c, In c cs ->
+    cell_antisym (get (DQ 0) cs (series_diff cs r1 r2) c)
+                 (get (DQ 0) cs (series_diff cs r2 r1) c).
+  Proof.
+    intros cs r1 r2 c Hc.
+    destruct (series_diff_cells cs r1 r2 c Hc) as [A1 V1].
+    destruct (series_diff_cells cs r2 r1 c Hc) as [A2 V2].
+    unfold cell_antisym. rewrite A1, A2, V1, V2. split; [reflexivity |].
+    apply ideal_swap_operands.
+  Qed.
+
+  (* ---------------------------------------------------------------- *)
+  (** ** Resampling *)
+
+  Theorem resample_cols : forall st ts, r_cols (resample_state st ts) = cols st.
+  Proof. reflexivity. Qed.
+
+  Lemma resample_index_eq : forall st ts,
+    map fst (r_rows (resample_state st ts)) = filter (in_span st) (isort ts).
+  Proof.
+    intros st ts. unfold Model.StateDiff.resample_state. cbn [r_rows].
+    rewrite map_map. cbn [fst]. apply map_id.
+  Qed.
+
+  (** output sorted; exactly the requested times that lie in the span, with
+      multiplicity *)
+  Theorem resample_index : forall st ts,
+    sorted (map fst (r_rows (resample_state st ts))) /\
+    Permutation (filter (in_span st) ts) (map fst (r_rows (resample_state st ts))) /\
+    forall t, In t (map fst (r_rows (resample_state st ts))) <->
+              In t ts /\ first_time st <= t /\ t <= last_time st.
+  Proof.
+    intros st ts. rewrite resample_index_eq. split; [| split].
+    - apply sorted_filter. apply isort_sorted.
+    - apply filter_perm. apply isort_perm.
+    - intro t. rewrite filter_In, in_span_iff. split; intros [H1 H2]; split; try exact H2.
+      + apply (Permutation_in _ (Permutation_sym (isort_perm ts))). exact H1.
+      + apply (Permutation_in _ (isort_perm ts)). exact H1.
+  Qed.
+
+  Theorem resample_row : forall st ts t row,
+    In (t, row) (r_rows (resample_state st ts)) ->
+    row = interp_row st t /\ length row = length (cols st).
+  Proof.
+    intros st ts t row H. unfold Model.StateDiff.resample_state in H. cbn [r_rows] in H.
+    apply in_map_iff in H. destruct H as [t' [E _]]. inversion E; subst.
+    split; [reflexivity | apply interp_row_length].
+  Qed.
+
+  Lemma resample_has_row : forall st ts t,
+    In t ts -> in_span st t = true -> In (t, interp_row st t) (r_rows (resample_state st ts)).
+  Proof.
+    intros st ts t Hin Hs. unfold Model.StateDiff.resample_state. cbn [r_rows].
+    apply (in_map (fun t => (t, interp_row st t))). apply filter_In. split; [| exact Hs].
+    apply (Permutation_in _ (isort_perm ts)). exact Hin.
+  Qed.
+
+  (** original rows at original times *)
+  Theorem resample_at_knot : forall st ts t0 r0,
+    well_formed st -> canon_table st -> In (t0, r0) (rows st) -> In t0 ts ->
+    In (t0, interp_row st t0) (r_rows (resample_state st ts)) /\
+    (forall c, In c (cols st) ->
+       valR (get (VQ 0) (cols st) (interp_row st t0) c) = Q2R (get 0 (cols st) r0 c)) /\
+    (NoDup (cols st) -> length r0 = length (cols st) ->
+       map valR (interp_row st t0) = map Q2R r0).
+  Proof.
+    intros st ts t0 r0 Hwf Hcan Hin Hts.
+    assert (Hcell : forall c, In c (cols st) ->
+              valR (get (VQ 0) (cols st) (interp_row st t0) c) = Q2R (get 0 (cols st) r0 c)).
+    { intros c Hc. apply (interp_row_knot st t0 t0 r0 c Hwf Hcan Hin (Qeq_refl _) Hc). }
+    split; [| split].
+    - apply resample_has_row; [exact Hts |].
+      apply (knot_in_span st (t0, r0) t0); [apply Hwf | exact Hin | apply Qeq_refl].
+    - exact Hcell.
+    - intros Hnd Hlen.
+      assert (E1 : map Q2R r0 = map (fun c => Q2R (get 0 (cols st) r0 c)) (cols st)).
+      { rewrite <- (map_map (get 0 (cols st) r0) Q2R). rewrite map_get_id by assumption. reflexivity. }
+      assert (E2 : map valR (interp_row st t0)
+                   = map (fun c => valR (get (VQ 0) (cols st) (interp_row st t0) c)) (cols st)).
+      { rewrite <- (map_map (get (VQ 0) (cols st) (interp_row st t0)) valR).
+        rewrite map_get_id by (try assumption; apply interp_row_length). reflexivity. }
+      rewrite E1, E2. apply map_ext_in. exact Hcell.
+  Qed.
+
+  Lemma incr_app_r : forall l1 l2, incr (l1 ++ l2) -> incr l2.
+  Proof.
+    induction l1 as [| x l1 IH]; intros l2 H; [exact H |]. simpl in H. apply IH. apply H.
+  Qed.
+
+  (** linear elsewhere: between two consecutive rows [lo], [hi] of the table with
+      [fst lo <= t <= fst hi], every column that is not Slerp-interpolated is the
+      straight line through the two rows; attitude (all of roll/pitch/heading
+      present) is [slerp] of the two rows at the same parameter in [0, 1] *)
+  Theorem resample_between : forall st t,
+    well_formed st -> in_span st t = true ->
+    exists pre lo hi post,
+      rows st = pre ++ lo :: hi :: post /\ fst lo <= t <= fst hi /\ fst lo < fst hi /\
+      0 <= w_hi t (fst lo) (fst hi) <= 1 /\
+      forall c, In c (cols st) ->
+        (has_all rph_cols (cols st) && is_rph c = false ->
+           exists q, get (VQ 0) (cols st) (interp_row st t) c = VQ q /\
+             q == get 0 (cols st) (snd lo) c
+                  + (t - fst lo) / (fst hi - fst lo)
+                    * (get 0 (cols st) (snd hi) c - get 0 (cols st) (snd lo) c)) /\
+        (has_all rph_cols (cols st) && is_rph c = true ->
+           get (VQ 0) (cols st) (interp_row st t) c
+           = VA c (slerp (rph_of (cols st) (snd lo)) (rph_of (cols st) (snd hi))
+                         (w_hi t (fst lo) (fst hi)))).
+  Proof.
+    intros st t [Hlen Hinc] Hspan. apply in_span_iff in Hspan. destruct Hspan as [H1 H2].
+    unfold first_time in H1. unfold last_time in H2. unfold times in Hinc.
+    destruct (rows st) as [| first rest] eqn:Erows; [simpl in Hlen; lia |].
+    destruct rest as [| h1 rest']; [simpl in Hlen; lia |].
+    assert (H2' : t <= fst (last (h1 :: rest') first)).
+    { rewrite (last_indep _ (h1 :: rest') first (0, [])) by discriminate. exact H2. }
+    destruct (locate_spec (h1 :: rest') first t ltac:(discriminate) Hinc H1 H2')
+      as [pre [post [E [Hb _]]]].
+    assert (Eb : bracket (rows st) t = locate t first (h1 :: rest')) by (rewrite Erows; reflexivity).
+    set (lo := fst (locate t first (h1 :: rest'))) in *.
+    set (hi := snd (locate t first (h1 :: rest'))) in *.
+    assert (Hlt : fst lo < fst hi).
+    { rewrite E, map_app in Hinc. apply incr_app_r in Hinc. simpl in Hinc.
+      destruct Hinc as [Hf _]. inversion Hf; assumption. }
+    exists pre, lo, hi, post. split; [exact E |]. split; [exact Hb |]. split; [exact Hlt |].
+    split; [apply (lerp_weights t (fst lo) (fst hi) Hlt Hb) |].
+    intros c Hc. split; intro Hflag.
+    - eexists. split.
+      + rewrite (interp_row_numeric st t c Hc Hflag). rewrite Eb. reflexivity.
+      + apply lerp_linear. exact Hlt.
+    - rewrite (interp_row_attitude st t c Hc Hflag). rewrite Eb. reflexivity.
+  Qed.
+
+  (* ---------------------------------------------------------------- *)
+  (** ** Perturbation recovered (algebraic part)
+
+      [perturb_pva] adds [dn / rn(lat, alt)], [de / rp(lat, alt)] (in degrees) to
+      lat, lon and subtracts [dd] from alt, adds the velocity and angle errors.
+      The difference perturbed - original then reports exactly
+      [dn * rn(mean) / rn(original)], [de * rp(mean) / rp(original)], [dd], the
+      velocity error, and the wrapped angle error.  The ratios of radii are
+      1 + O(|d| / R): that first-order closeness is checked numerically only. *)
+  Theorem perturb_recovered_partial : forall lat alt dn de dd mlat malt x e,
+    rn lat alt <> 0%R -> rp lat alt <> 0%R ->
+    metres c_lat (1 * ((lat + dn / rn lat alt * (180 / PI)) - lat)) mlat malt
+      = (dn * (rn mlat malt / rn lat alt))%R /\
+    metres c_lon (1 * ((x + de / rp lat alt * (180 / PI)) - x)) mlat malt
+      = (de * (rp mlat malt / rp lat alt))%R /\
+    metres c_alt (1 * ((alt - dd) - alt)) mlat malt = dd /\
+    (1 * ((x + e) - x) = e)%R /\
+    ((-180 < e <= 180)%R -> to_180_range_arr_r (1 * ((x + e) - x)) = e).
+  Proof.
+    intros lat alt dn de dd mlat malt x e Hn Hp.
+    assert (Hpi : PI <> 0%R) by (apply Rgt_not_eq; apply PI_RGT_0).
+    unfold metres. cbn [Nat.eqb c_lat c_lon c_alt].
+    repeat split; try (field; auto); try lra.
+    intro He. replace (1 * (x + e - x))%R with e by lra. apply to180_arr_of_in_range. exact He.
+  Qed.
+
+End Semantics.
+
+(* ------------------------------------------------------------------ *)
+(** * Non-vacuity: the scipy hypotheses are satisfiable, the table hypotheses too *)
+
+(** componentwise linear "slerp" on Euler triples: satisfies both endpoint
+    hypotheses (it is NOT scipy's; it only shows the hypotheses are consistent) *)
+Definition lin3 (a b : Q * Q * Q) (s : Q) : Q * Q * Q :=
+  (fst (fst a) + s * (fst (fst b) - fst (fst a)),
+   snd (fst a) + s * (snd (fst b) - snd (fst a)),
+   snd a + s * (snd b - snd a)).
+Definition lin_comp (k : nat) (x : Q * Q * Q) : R := Q2R (tcomp k x).
+Definition any_triple (_ : Q * Q * Q) : Prop := True.
+
+Lemma lin3_start : forall a b s k,
+  any_triple a -> s == 0 -> lin_comp k (lin3 a b s) = Q2R (tcomp k a).
+Proof.
+  intros a b s k _ Hs. unfold lin_comp. apply Qeq_eqR.
+  destruct k as [| [| k]]; simpl; rewrite Hs; ring.
+Qed.
+
+Lemma lin3_end : forall a b s k,
+  any_triple b -> s == 1 -> lin_comp k (lin3 a b s) = Q2R (tcomp k b).
+Proof.
+  intros a b s k _ Hs. unfold lin_comp. apply Qeq_eqR.
+  destruct k as [| [| k]]; simpl; rewrite Hs; ring.
+Qed.
+
+(** lat lon alt VN roll pitch heading at t = 0..4, and its sub-sampling t = 0, 2, 4 *)
+Definition ex_cols : list nat := [3; 4; 5; 6; 0; 1; 2]%nat.
+Definition ex_full : table := mkTable ex_cols
+  [ (0, [50; 30; 100; 0; 1; 2; 170]);
+    (1, [50 + (1 # 1024); 30; 101; 1; 2; 2; 175]);
+    (2, [50 + (2 # 1024); 30 + (1 # 1024); 103; 4; 3; 1; 180]);
+    (3, [50 + (3 # 1024); 30 + (2 # 1024); 102; 9; 2; 0; -175]);
+    (4, [50 + (4 # 1024); 30 + (2 # 1024); 100; 16; 1; -1; -170]) ].
+Definition ex_sub : table := mkTable ex_cols
+  [ (0, [50; 30; 100; 0; 1; 2; 170]);
+    (2, [50 + (2 # 1024); 30 + (1 # 1024); 103; 4; 3; 1; 180]);
+    (4, [50 + (4 # 1024); 30 + (2 # 1024); 100; 16; 1; -1; -170]) ].
+
+Lemma ex_tables_ok :
+  wf_table ex_full = true /\ wf_table ex_sub = true /\
+  subsample ex_sub ex_full /\ median_dt ex_full < median_dt ex_sub /\
+  ~ median_dt ex_full == median_dt ex_sub /\
+  canon_table any_triple ex_full /\ canon_table any_triple ex_sub /\
+  NoDup (cols ex_full).
+Proof.
+  split; [vm_compute; reflexivity |]. split; [vm_compute; reflexivity |].
+  split.
+  { split; [reflexivity |]. intros x Hx. simpl in Hx |- *. tauto. }
+  split; [vm_compute; reflexivity |].
+  split; [intro H; vm_compute in H; discriminate |].
+  split; [intros _ r _; exact I |]. split; [intros _ r _; exact I |].
+  unfold ex_full, ex_cols, cols. repeat constructor; simpl; intuition discriminate.
+Qed.
+
+(* ------------------------------------------------------------------ *)
+(** * The recorded findings exhibited in the model (the model is faithful there) *)
+
+(** finding subsample-equal-median-nonzero: VN = t^2 at t = 0..6 against the same
+    table without t = 4; both medians are 1, nothing is swapped, the sub-sampling
+    is interpolated at t = 4: 16 - 17 = -1 *)
+Definition f1_full : table := mkTable [6%nat]
+  [ (0, [0]); (1, [1]); (2, [4]); (3, [9]); (4, [16]); (5, [25]); (6, [36]) ].
+Definition f1_sub : table := mkTable [6%nat]
+  [ (0, [0]); (1, [1]); (2, [4]); (3, [9]); (5, [25]); (6, [36]) ].
+
+Lemma subsample_equal_median_witness : forall ang slerp comp rn rp,
+  wf_table f1_full = true /\ wf_table f1_sub = true /\ subsample f1_sub f1_full /\
+  median_dt f1_full == median_dt f1_sub /\
+  exists q, In (4, [DQ q]) (d_rows (state_diff ang slerp f1_full f1_sub)) /\
+            dvalR ang comp rn rp (DQ q) = (-1)%R.
+Proof.
+  intros ang slerp comp rn rp.
+  split; [vm_compute; reflexivity |]. split; [vm_compute; reflexivity |].
+  split. { split; [reflexivity |]. intros x Hx. simpl in Hx |- *. tauto. }
+  split; [vm_compute; reflexivity |].
+  eexists. split.
+  - vm_compute. do 4 right. left. reflexivity.
+  - cbn [dvalR]. rewrite <- Q2R_mone. apply Qeq_eqR. vm_compute. reflexivity.
+Qed.
+
+(** finding subsample-smaller-median-nonzero: irregular sampling, the sub-sampling
+    has the SMALLER median interval (1 against 10); the full table is taken as the
+    sparser one and the sub-sampling is interpolated at t = 12: 9 - 11 = -2 *)
+Definition f2_full : table := mkTable [6%nat]
+  [ (0, [0]); (1, [1]); (2, [4]); (12, [9]); (22, [16]); (32, [25]) ].
+Definition f2_sub : table := mkTable [6%nat]
+  [ (0, [0]); (1, [1]); (2, [4]); (32, [25]) ].
+
+Lemma subsample_smaller_median_witness : forall ang slerp comp rn rp,
+  wf_table f2_full = true /\ wf_table f2_sub = true /\ subsample f2_sub f2_full /\
+  median_dt f2_sub < median_dt f2_full /\
+  (exists q, In (12, [DQ q]) (d_rows (state_diff ang slerp f2_full f2_sub)) /\
+             dvalR ang comp rn rp (DQ q) = (-2)%R) /\
+  (exists q, In (12, [DQ q]) (d_rows (state_diff ang slerp f2_sub f2_full)) /\
+             dvalR ang comp rn rp (DQ q) = 2%R).
+Proof.
+  intros ang slerp comp rn rp.
+  split; [vm_compute; reflexivity |]. split; [vm_compute; reflexivity |].
+  split. { split; [reflexivity |]. intros x Hx. simpl in Hx |- *. tauto. }
+  split; [vm_compute; reflexivity |].
+  split; eexists; (split; [vm_compute; do 3 right; left; reflexivity |]); cbn [dvalR].
+  - replace (-2)%R with (Q2R (-2)) by (unfold Q2R; simpl; lra). apply Qeq_eqR. vm_compute. reflexivity.
+  - replace 2%R with (Q2R 2) by (unfold Q2R; simpl; lra). apply Qeq_eqR. vm_compute. reflexivity.
+Qed.
+
+(** finding equal-median-index-mismatch: same rate, offset stamps; neither call
+    swaps, each result is indexed by its own first argument *)
+Definition f3_a : table := mkTable [6%nat] [ (0, [0]); (1, [1]); (2, [2]); (3, [3]) ].
+Definition f3_b : table := mkTable [6%nat]
+  [ (1 # 2, [0]); (3 # 2, [1]); (5 # 2, [2]); (7 # 2, [3]) ].
+
+Lemma equal_median_index_mismatch_witness : forall ang slerp,
+  wf_table f3_a = true /\ wf_table f3_b = true /\ median_dt f3_a == median_dt f3_b /\
+  map fst (d_rows (state_diff ang slerp f3_a f3_b)) = [1; 2; 3] /\
+  map fst (d_rows (state_diff ang slerp f3_b f3_a)) = [1 # 2; 3 # 2; 5 # 2].
+Proof.
+  intros ang slerp. repeat split; vm_compute; reflexivity.
+Qed.
+
+(** the endpoint: a difference of exactly 180 degrees is +180 in both orders
+    (heading 100 against -80; the repaired swapped branch wraps AFTER the sign) *)
+Lemma angle_180_both_orders :
+  to_180_range_arr_r (1 * (100 - -80)) = 180%R /\ to_180_range_arr_r (-1 * (100 - -80)) = 180%R.
+Proof.
+  rewrite <- !to180_scalar_eq_array. split.
+  - apply (to180_unique _ _ 0%Z); simpl; lra.
+  - apply (to180_unique _ _ (-1)%Z); simpl; lra.
+Qed.
+
+(** the theorems applied to the concrete tables (their hypotheses are jointly
+    satisfiable on a table with position, velocity and attitude columns) *)
+Lemma ex_well_formed : well_formed ex_full /\ well_formed ex_sub.
+Proof.
+  destruct ex_tables_ok as [H1 [H2 _]].
+  split; apply wf_table_well_formed; assumption.
+Qed.
+
+Lemma ex_zero : forall rn rp,
+  zero_table _ lin_comp rn rp (state_diff _ lin3 ex_full ex_full) (cols ex_full) (times ex_full) /\
+  zero_table _ lin_comp rn rp (state_diff _ lin3 ex_full ex_sub) (cols ex_sub) (times ex_sub) /\
+  zero_table _ lin_comp rn rp (state_diff _ lin3 ex_sub ex_full) (cols ex_sub) (times ex_sub) /\
+  table_antisym _ lin_comp rn rp (state_diff _ lin3 ex_full ex_sub) (state_diff _ lin3 ex_sub ex_full).
+Proof.
+  intros rn rp. destruct ex_well_formed as [Wf Ws].
+  destruct ex_tables_ok as [_ [_ [Hsub [Hlt [Hne [Cf [Cs _]]]]]]].
+  split; [| split; [| split]].
+  - exact (diff_self_zero _ lin3 lin_comp any_triple rn rp lin3_start lin3_end ex_full Wf Cf).
+  - apply (diff_subsample_zero _ lin3 lin_comp any_triple rn rp lin3_start lin3_end
+             ex_full ex_sub Wf Ws Cf Hsub). exact Hlt.
+  - apply (diff_subsample_zero _ lin3 lin_comp any_triple rn rp lin3_start lin3_end
+             ex_full ex_sub Wf Ws Cf Hsub). apply Qlt_le_weak. exact Hlt.
+  - apply diff_antisym_swap. exact Hne.
+Qed.
